@@ -8,6 +8,7 @@ package wire
 
 import (
 	"context"
+	"encoding/hex"
 	"encoding/json"
 	"errors"
 	"fmt"
@@ -83,6 +84,7 @@ type Step struct {
 	Ms       int      `json:"ms"`
 	Branches [][]Step `json:"branches"`
 	Wait     string   `json:"wait"` // for "expect": what to wait for
+	Hex      string   `json:"hex"`  // raw bytes to send
 }
 
 // Scenario is a broker configuration plus a script.
@@ -102,6 +104,7 @@ type Scenario struct {
 	Steps []Step `json:"steps"`
 	Slow  bool   `json:"slow"`
 	Hooks bool   `json:"hooks"`
+	AnyDisc bool `json:"anydisc"` // the script makes a client misbehave on purpose: any error DISCONNECT may follow
 }
 
 type Timeouts struct {
@@ -211,7 +214,7 @@ func Execute(sc *Scenario, extra ...server.Options) (*Run, []inproc.Event) {
 	r.Rec.Log(inproc.Event{"e": "reset", "scn": sc.ID, "mode": cfg.MQTT.DeliveryMode, "qq0": cfg.MQTT.QueueQos0Msg,
 		"maxinflight": int(cfg.MQTT.MaxInflight), "maxqueued": cfg.MQTT.MaxQueuedMsg, "srvrecvmax": int(cfg.MQTT.ReceiveMax),
 		"srvaliasmax": int(cfg.MQTT.TopicAliasMax), "srvmaxpkt": int(cfg.MQTT.MaxPacketSize),
-		"msgexpiry": sc.Cfg.MsgExpiry, "sessexpiry": int(cfg.MQTT.SessionExpiry / time.Second)})
+		"msgexpiry": sc.Cfg.MsgExpiry, "sessexpiry": int(cfg.MQTT.SessionExpiry / time.Second), "hooks": sc.Hooks, "anydisc": sc.AnyDisc})
 	if len(extra) == 0 {
 		// OnMsgDropped is part of the observable behaviour ("dropped and reported"): log it as an event
 		extra = []server.Options{server.WithHook(server.Hooks{OnMsgDropped: func(ctx context.Context, clientID string, msg *gmqtt.Message, err error) {
@@ -302,6 +305,30 @@ func (r *Run) step(s *Step) {
 		r.disconnect(s)
 	case "abort":
 		r.abort(s)
+	case "pingall":
+		r.amu.Lock()
+		var as []*actor
+		for _, a := range r.actors {
+			as = append(as, a)
+		}
+		r.amu.Unlock()
+		for _, a := range as {
+			r.ping(&Step{K: a.k})
+		}
+		r.Rec.Log(inproc.Event{"e": "quiet"})
+	case "raw":
+		if a := r.actor(s.K); a != nil {
+			b, _ := hex.DecodeString(s.Hex)
+			a.logmu.Lock()
+			if !a.muted {
+				r.Rec.Log(inproc.Event{"e": "raw", "k": s.K, "hex": s.Hex})
+			}
+			a.logmu.Unlock()
+			_ = a.c.SendRaw(b)
+		}
+	case "terminate":
+		r.Rec.Log(inproc.Event{"e": "terminate", "cid": s.Cid})
+		r.B.Srv.ClientService().TerminateSession(s.Cid)
 	case "sleep":
 		time.Sleep(time.Duration(s.Ms) * time.Millisecond)
 	case "barrier":
